@@ -67,6 +67,50 @@ def insert_stores(repo, intensity):
     return f, out
 
 
+def insert_twin_rule(chk, repo, clause):
+    """The two branches of field.insert add the same samples at the same place with the same weight: the intensity
+    branch differs from the complex one by abs(.**2) of the samples only."""
+    f, si = insert_stores(repo, TRUE)
+    _, sc = insert_stores(repo, FALSE)
+    n, ok, det = 0, True, ''
+    by_order = len(si) == len(sc) and not all(k in sc for k in si)
+    for pos, (k, (p, ws)) in enumerate(si.items()):
+        if by_order:
+            # the path conditions mention values created during the analysis (numbered per run): the two analyses walk the
+            # same statements in the same order, so the paths are paired by position
+            wc = list(sc.values())[pos][1]
+        elif k not in sc:
+            ok, det = False, 'the intensity branch takes paths the complex branch does not'
+            continue
+        else:
+            wc = sc[k][1]
+        if not ws and not wc and p.ret == S('out'):
+            continue            # nothing is added on this path in either branch (a field wholly outside the array, C06-c)
+        if len(ws) != 1 or len(wc) != 1:
+            ok, det = False, 'more than one store into out on a path'
+            continue
+        n += 1
+        ri, rc = ws[0].data.get('rhs'), wc[0].data.get('rhs')
+        w = S('weight')
+        good = ws[0].data.get('key') is not None and ws[0].data.get('key') == wc[0].data.get('key') and \
+            ws[0].data.get('aug') == 'add' and wc[0].data.get('aug') == 'add'
+        # rc = X*weight ; ri = abs(X**2)*weight  (abs(X)**2 accepted)
+        X = rc / w if isinstance(rc, Poly) else None
+        wantA = nf.app('abs', X ** 2) * w if X is not None else None
+        from ..npmodel import nf_abs
+        wantB = nf_abs(X) ** 2 * w if X is not None and len(X.terms) == 1 else None
+        same = ri in (wantA, wantB)
+        if not same and X is not None and ri is not None and 'fresh<' in fmt(ri):
+            same = _canon_fresh(fmt(ri)) in [_canon_fresh(fmt(w_)) for w_ in (wantA, wantB) if w_ is not None]
+            good = ws[0].data.get('key') is not None and ws[0].data.get('aug') == 'add' and wc[0].data.get('aug') == 'add' and \
+                _canon_fresh(fmt(ws[0].data.get('key'))) == _canon_fresh(fmt(wc[0].data.get('key')))
+        good = good and X is not None and not any(a == ('sym', 'weight') for a in X.atoms()) and same
+        if not good:
+            ok, det = False, f'complex: out[...] += {fmt(rc)}; intensity: out[...] += {fmt(ri)} [{conds_str(p)}]'
+    chk.ob(clause, 'N-twin', f.key, 'intensity branch = |same samples|^2 with the same slices and weight', ok and n > 0,
+           det or f'{n} paths compared', f.loc())
+
+
 def run(chk, repo, tier):
     from .common import no_hidden_state
     no_hidden_state(chk, repo, 'C07')
@@ -128,45 +172,7 @@ def run(chk, repo, tier):
     # array_extent / insert puts it
     from .c06 import merge_helper_rules as _merge_helper_rules
     _merge_helper_rules(_Remap(chk, {'C06-b': 'C07-a', 'C06-e': 'C07-a'}), repo)
-    f, si = insert_stores(repo, TRUE)
-    _, sc = insert_stores(repo, FALSE)
-    n, ok, det = 0, True, ''
-    by_order = len(si) == len(sc) and not all(k in sc for k in si)
-    for pos, (k, (p, ws)) in enumerate(si.items()):
-        if by_order:
-            # the path conditions mention values created during the analysis (numbered per run): the two analyses walk the
-            # same statements in the same order, so the paths are paired by position
-            wc = list(sc.values())[pos][1]
-        elif k not in sc:
-            ok, det = False, 'the intensity branch takes paths the complex branch does not'
-            continue
-        else:
-            wc = sc[k][1]
-        if not ws and not wc and p.ret == S('out'):
-            continue            # nothing is added on this path in either branch (a field wholly outside the array, C06-c)
-        if len(ws) != 1 or len(wc) != 1:
-            ok, det = False, 'more than one store into out on a path'
-            continue
-        n += 1
-        ri, rc = ws[0].data.get('rhs'), wc[0].data.get('rhs')
-        w = S('weight')
-        good = ws[0].data.get('key') is not None and ws[0].data.get('key') == wc[0].data.get('key') and \
-            ws[0].data.get('aug') == 'add' and wc[0].data.get('aug') == 'add'
-        # rc = X*weight ; ri = abs(X**2)*weight  (abs(X)**2 accepted)
-        X = rc / w if isinstance(rc, Poly) else None
-        wantA = nf.app('abs', X ** 2) * w if X is not None else None
-        from ..npmodel import nf_abs
-        wantB = nf_abs(X) ** 2 * w if X is not None and len(X.terms) == 1 else None
-        same = ri in (wantA, wantB)
-        if not same and X is not None and ri is not None and 'fresh<' in fmt(ri):
-            same = _canon_fresh(fmt(ri)) in [_canon_fresh(fmt(w_)) for w_ in (wantA, wantB) if w_ is not None]
-            good = ws[0].data.get('key') is not None and ws[0].data.get('aug') == 'add' and wc[0].data.get('aug') == 'add' and \
-                _canon_fresh(fmt(ws[0].data.get('key'))) == _canon_fresh(fmt(wc[0].data.get('key')))
-        good = good and X is not None and not any(a == ('sym', 'weight') for a in X.atoms()) and same
-        if not good:
-            ok, det = False, f'complex: out[...] += {fmt(rc)}; intensity: out[...] += {fmt(ri)} [{conds_str(p)}]'
-    chk.ob('C07-a', 'N-twin', f.key, 'intensity branch = |same samples|^2 with the same slices and weight', ok and n > 0,
-           det or f'{n} paths compared', f.loc())
+    insert_twin_rule(chk, repo, 'C07-a')
 
     # ---------------------------------------------------------------- C07-b
     f, paths, _ = analyse(repo, 'field.insert', types={('sym', 'field'): repo.cls('field.Field')})
